@@ -33,7 +33,7 @@ import (
 )
 
 type WireCase struct {
-	Mode       string `json:"mode"` // writers | backup-small | backup-big
+	Mode       string `json:"mode"` // writers | backup-small | backup-big | backup-rerun (a second, smaller backup into the same directory)
 	Compressor string `json:"compressor,omitempty"`
 	Writers    int    `json:"writers,omitempty"`
 	Rounds     int    `json:"rounds,omitempty"`
@@ -48,6 +48,9 @@ func genWireCase(t *rapid.T) WireCase {
 	switch rapid.IntRange(0, 9).Draw(t, "mode") {
 	case 0, 1:
 		return WireCase{Mode: "backup-small", Pairs: rapid.IntRange(0, 3).Draw(t, "pairs"), NameLen: rapid.SampledFrom([]int{6, 13, 20, 31, 60}).Draw(t, "namelen"), ValSize: rapid.SampledFrom([]int{0, 1, 8, 40, 150}).Draw(t, "vsize")}
+	case 3:
+		// the backup directory is used again after the table shrank
+		return WireCase{Mode: "backup-rerun", Pairs: rapid.IntRange(3, 40).Draw(t, "pairs"), NameLen: 12, ValSize: rapid.SampledFrom([]int{8, 300, 5000}).Draw(t, "vsize")}
 	case 2:
 		// a snapshot file of several MiB that does not compress: full-size chunks
 		return WireCase{Mode: "backup-big", Pairs: rapid.IntRange(3, 5).Draw(t, "pairs"), NameLen: 12, ValSize: rapid.SampledFrom([]int{1 << 20, 2 << 20}).Draw(t, "vsize")}
@@ -279,7 +282,7 @@ func runWireCase(c WireCase, o *vt.Obs) *vt.Failure {
 			o.Label("wire-compressed:" + c.Compressor)
 		}
 		o.NonTrivial = c.Writers >= 3
-	case "backup-small", "backup-big":
+	case "backup-small", "backup-big", "backup-rerun":
 		name := string(pad(fmt.Sprintf("bk%05d-", wireNo), 'n', c.NameLen))
 		if err := wireCreate(p, name); err != nil {
 			vt.Inconclusive("C18 create table: " + err.Error())
@@ -335,6 +338,26 @@ func runWireCase(c WireCase, o *vt.Obs) *vt.Failure {
 			}
 			return vt.Failf(prop+"/wire-backup-error", 0, "backup of table %q (%d pairs of %d bytes) with the stock client failed: %v", name, c.Pairs, c.ValSize, err)
 		}
+		if c.Mode == "backup-rerun" {
+			// the table shrinks, the same directory takes the next backup: the files of the first one are replaced
+			for i := 1; i < c.Pairs; i++ {
+				k := fmt.Sprintf("key-%02d", i)
+				ctx, cancel := context.WithTimeout(context.Background(), 60*time.Second)
+				_, err := kv.DeleteRange(ctx, &regattapb.DeleteRangeRequest{Table: []byte(name), Key: []byte(k)})
+				cancel()
+				if err != nil {
+					vt.Inconclusive("C18 shrink: " + err.Error())
+					return nil
+				}
+				delete(want, k)
+			}
+			if _, err := b.Backup(); err != nil {
+				if f := died(); f != nil || !p.Alive() {
+					return f
+				}
+				return vt.Failf(prop+"/wire-backup-error", 0, "second backup of table %q into the same directory failed: %v", name, err)
+			}
+		}
 		// change the table, then restore: the backed-up content must be back
 		ctx, cancel := context.WithTimeout(context.Background(), 60*time.Second)
 		_, _ = kv.DeleteRange(ctx, &regattapb.DeleteRangeRequest{Table: []byte(name), Key: []byte{0}, RangeEnd: []byte{0}})
@@ -362,7 +385,7 @@ func runWireCase(c WireCase, o *vt.Obs) *vt.Failure {
 			return vt.Failf(prop+"/wire-restore-other-table", 0, "the restore changed the table list from %q to %q", before, after)
 		}
 		o.Label("wire-" + c.Mode)
-		o.NonTrivial = c.Mode == "backup-big" || c.NameLen > 12
+		o.NonTrivial = c.Mode == "backup-big" || c.Mode == "backup-rerun" || c.NameLen > 12
 	}
 	o.Describe = func() string { return fmt.Sprintf("%+v", c) }
 	return nil
